@@ -58,7 +58,8 @@ def close(x, y): return np.allclose(np.asarray(x, dtype=float), np.asarray(y, dt
 def cmp(base, d, inp):
     if "error" in d: R.fail("c03.run_fails", "solver raises under this device/batch configuration", inp, d["error"]); return
     if "error" in base: return
-    if d["len"] != base["len"]: R.fail("c03.length", "returned array length differs", inp, d["len"], base["len"])
+    if d["len"] != base["len"] or np.asarray(d["values"]).shape != np.asarray(base["values"]).shape or np.asarray(d["policy"]).shape != np.asarray(base["policy"]).shape:
+        R.fail("c03.length", "returned array length differs", inp, dict(values=d["len"], policy=len(d["policy"])), dict(values=base["len"], policy=len(base["policy"]))); return
     if d["iteration"] != base["iteration"] or not close(d["values"], base["values"]) or d["policy"] != base["policy"] or ("gain" in d and abs(d["gain"] - base["gain"]) > 1e-9) or ("history" in d and not close(d["history"], base["history"])):
         R.fail("c03.results_differ", "results differ between device / batch configurations", inp, dict(iteration=d["iteration"]), dict(iteration=base["iteration"]))
 for (name, n), lst in by_solver_n.items():
@@ -74,4 +75,5 @@ for D in devs[1:]:
         inp = dict(solver=name, n_states=int(n[2:]), max_batch_size=int(bs[3:]), devices=D, n_devices=d.get("n_devices"), n_pad=d.get("n_pad")); R.case((name, n, bs, D), inp)
         if name != "sa": cmp(base, d, inp)
         elif "error" in d: R.fail("c03.run_fails", "solver raises under this device/batch configuration", inp, d["error"])
+        elif "error" not in base and (d["len"] != base["len"] or len(d["policy"]) != len(base["policy"])): R.fail("c03.length", "returned array length differs", inp, d["len"], base["len"])
 R.write(a.out)
